@@ -753,7 +753,25 @@ for (s, r), paths in sorted(good_paths.items()):
                     call(q.reverse)
                     chk.count(path_reverse_history="reversed before rays were assigned")
                 q.rays = random_rays(q)
-            do_path_reverse(q, "config")
+            vel_edit_ = with_rays and rng.random() < 0.3
+            if vel_edit_:
+                # history: the block velocities are updated in place AFTER the rays were obtained (a calibration step) and the path is
+                # reversed before tracing again: the reversed rays are still the rays that were traced, travelled backwards
+                _keep_v = (BLOCK.longitudinal_vel, BLOCK.transverse_vel)
+                BLOCK.longitudinal_vel, BLOCK.transverse_vel = _keep_v[0] * 1.07, _keep_v[1] * 0.96
+                chk.count(path_reverse_history="block velocities edited between tracing and reversal")
+            try:
+                do_path_reverse(q, "config")
+                if with_rays:
+                    ec_f, rp_f = call(q.reverse)
+                    if ec_f == 0 and rp_f.rays is not None and enc_fpath(rp_f.rays.fermat_path) != enc_fpath(q.rays.fermat_path.reverse()):
+                        chk.violation("path:reversed-fermat-path", "the rays of the reversed path do not carry the reversed FermatPath of the rays that were given",
+                                      {"path(name,modes,materials,interfaces)": enc_path(q), "velocities_edited_after_tracing": bool(vel_edit_),
+                                       "fermat_path_of_rays": enc_fpath(q.rays.fermat_path), "fermat_path_of_reversed_rays": enc_fpath(rp_f.rays.fermat_path)},
+                                      failing_input_found=True)
+            finally:
+                if vel_edit_:
+                    BLOCK.longitudinal_vel, BLOCK.transverse_vel = _keep_v
             if with_rays:
                 # ... and replacing the rays after a reversal must be seen by the next reversal
                 old_rays = q.rays
